@@ -373,6 +373,111 @@ theorem lay_irun (f f' : Field) (hl : Lay f) (os : List IOp) (ho : ∀ o ∈ os,
       rw [hs] at h
       exact ih f1 (lay_istep f f1 hl o (ho o (by simp)) hs) (fun x hx => ho x (by simp [hx])) h
 
+/-! ### calls through live handles -/
+
+/-- a call addressed by handle position: the position holds a node of the handle's kind (what `HOk`
+    says of every live handle), and the operands are valid -/
+def Op.layH (f : Field) : Op → Prop
+  | .setArchqual p q aq => ROk f (.at p q) ∧ isIdent aq = true
+  | .setVersion p q vc => ROk f (.at p q) ∧ ∀ c v, vc = some (c, v) → validVersion v = true
+  | .dropConstraint p q => ROk f (.at p q)
+  | .setArchitectures p q as => ROk f (.at p q) ∧ ∀ x ∈ as, validArch x = true
+  | .addProfile p q g => ROk f (.at p q) ∧ ∀ x ∈ g, isIdent (profName x) = true
+  | .entryPush p rel => EOk f (.at p) ∧ RelOperand rel
+  | .entryReplace p _ rel => EOk f (.at p) ∧ RelOperand rel
+  | .removeRelationAt p q => ROk f (.at p q)
+  | .removeRelation _ _ => True
+  | .insert _ e => EntOperand e
+  | .push e => EntOperand e
+  | .replace _ e => EntOperand e
+  | .removeEntry _ => True
+  | .removeEntryAt p => EOk f (.at p)
+
+theorem rok_addr {f : Field} {p q : Nat} (h : ROk f (.at p q)) :
+    ∃ i j, nthNode .ENTRY f.kids i = some p ∧ nthNode .RELATION (f.entryKids p) j = some q := by
+  obtain ⟨e, r, he, hent, hr, hrel⟩ := h
+  obtain ⟨_, _, h1, _⟩ := entry_handle_reads f p ⟨e, he, hent⟩
+  obtain ⟨_, _, _, _, h2, _⟩ := rel_handle_reads f p q ⟨e, r, he, hent, hr, hrel⟩
+  exact ⟨_, _, h1, h2⟩
+
+theorem eok_addr {f : Field} {p : Nat} (h : EOk f (.at p)) : ∃ i, nthNode .ENTRY f.kids i = some p := by
+  obtain ⟨_, _, h1, _⟩ := entry_handle_reads f p h
+  exact ⟨_, h1⟩
+
+/-- (3) for calls made through live handles -/
+theorem lay_step (f f' : Field) (hl : Lay f) (op : Op) (ho : op.layH f) (h : step f op = .ok f') : Lay f' := by
+  have setter : ∀ (p q : Nat) (g : RNode → RNode), ROk f (.at p q) → KeepsRel g → Lay (f.relEdit p q g) := by
+    intro p q g hr hg
+    obtain ⟨i, j, hp, hq⟩ := rok_addr hr
+    exact lay_relEdit f hl i j p q hp hq g hg
+  cases op with
+  | setArchqual p q aq =>
+    simp only [step, Outcome.ok.injEq] at h; subst h
+    exact setter p q _ ho.1 (keeps_setArchqual aq ho.2)
+  | setVersion p q vc =>
+    simp only [step, Outcome.ok.injEq] at h; subst h
+    exact setter p q _ ho.1 (keeps_setVersion vc ho.2)
+  | dropConstraint p q =>
+    simp only [step, Outcome.ok.injEq] at h; subst h
+    exact setter p q _ ho keeps_dropConstraint
+  | setArchitectures p q as =>
+    simp only [step, Outcome.ok.injEq] at h; subst h
+    exact setter p q _ ho.1 (keeps_setArchitectures as ho.2)
+  | addProfile p q g =>
+    simp only [step, Outcome.ok.injEq] at h; subst h
+    exact setter p q _ ho.1 (keeps_addProfile g ho.2)
+  | entryPush p rel =>
+    simp only [step, Outcome.ok.injEq] at h; subst h
+    obtain ⟨i, hp⟩ := eok_addr ho.1
+    exact lay_entryPushAt f hl i p hp rel ho.2
+  | entryReplace p j rel =>
+    simp only [step] at h
+    obtain ⟨i, hp⟩ := eok_addr ho.1
+    cases hq : nthNode .RELATION (f.entryKids p) j with
+    | none => simp [Field.entryReplaceAt, hq] at h
+    | some q =>
+      obtain ⟨f'', h1, h2⟩ := lay_entryReplaceAt f hl i j p q hp hq rel ho.2
+      rw [h1] at h; simp only [Outcome.ok.injEq] at h; subst h; exact h2
+  | removeRelationAt p q =>
+    simp only [step] at h
+    obtain ⟨i, j, hp, hq⟩ := rok_addr ho
+    obtain ⟨f'', h1, h2⟩ := lay_removeRelationAt f hl i j p q hp hq
+    rw [h1] at h; simp only [Outcome.ok.injEq] at h; subst h; exact h2
+  | removeRelation i j =>
+    exact lay_istep f f' hl (.removeRelation i j) trivial (by simpa [istep, IOp.resolve] using h)
+  | insert i e =>
+    simp only [step, Outcome.ok.injEq] at h; subst h
+    exact lay_insert f hl i e ho
+  | push e =>
+    simp only [step, Outcome.ok.injEq] at h; subst h
+    exact lay_push f hl e ho
+  | replace i e =>
+    simp only [step] at h
+    exact lay_replace f f' hl i e ho h
+  | removeEntry i =>
+    exact lay_istep f f' hl (.removeEntry i) trivial (by simpa [istep, IOp.resolve] using h)
+  | removeEntryAt p =>
+    simp only [step] at h
+    obtain ⟨i, hp⟩ := eok_addr ho
+    obtain ⟨f'', h1, h2⟩ := lay_removeEntryAt f hl i p hp
+    rw [h1] at h; simp only [Outcome.ok.injEq] at h; subst h; exact h2
+
+/-- every call of the history is made on a live handle position / with valid operands at its time -/
+def laysH (f : Field) : List Op → Prop
+  | [] => True
+  | op :: ops => op.layH f ∧ ∀ f1, step f op = .ok f1 → laysH f1 ops
+
+theorem lay_run (f f' : Field) (hl : Lay f) (ops : List Op) (ho : laysH f ops) (h : run f ops = .ok f') : Lay f' := by
+  induction ops generalizing f with
+  | nil => simp only [run, Outcome.ok.injEq] at h; subst h; exact hl
+  | cons op ops ih =>
+    simp only [run] at h
+    cases hs : step f op with
+    | panic m => rw [hs] at h; cases h
+    | ok f1 =>
+      rw [hs] at h
+      exact ih f1 (lay_step f f1 hl op ho.1 hs) (ho.2 f1 hs) h
+
 /-! ### re-reading a layout -/
 
 /-- no substitution variable among the items -/
